@@ -55,12 +55,16 @@ def early_pool():
 def discharge(obligs, rlimit=None, want_model=True):
     """obligs: list of engine.Oblig. Returns list of dict results aligned with obligs (deduplicated by text)."""
     rlimit = rlimit or RLIMIT
+    import z3 as _z3
     texts = [o.smt2() for o in obligs]
     uniq = {}
-    for t in texts:
+    lim = {}
+    for o, t in zip(obligs, texts):
         h = hashlib.sha1(t.encode()).hexdigest()
         uniq.setdefault(h, t)
-    jobs = [(h, t, rlimit, want_model) for h, t in uniq.items()]
+        # a goal that is literally False can only be discharged by refuting the path: give it a small budget
+        lim[h] = min(rlimit, 6_000_000) if _z3.is_false(o.goal) else rlimit
+    jobs = [(h, t, lim[h], want_model) for h, t in uniq.items()]
     results = {}
     for k, r, dt, m, why in pool().imap_unordered(_solve, jobs, chunksize=1):
         results[k] = (r, dt, m, why)
